@@ -322,7 +322,7 @@ func init() {
 		ID:        "C07",
 		Level:     "model_checking",
 		Technique: "exhaustive enumeration of Parse/Bind/Describe/Execute/Close/Sync histories over a pool of colliding names on a real server (single connection: vs. a set-valued name-resolution model; two connections: differential against each connection's projection served alone)",
-		Rule:      "single: all histories of length <= d over 23 letters (names \"\"/a, portals \"\"/x, two distinguishable statements, two parameter/format variants); portal re-binding: every ordered pair of ~50 Bind shapes (statement of 1 / 2 columns, 0-3 parameters, 0 / 1 / per-item parameter codes, 0 / 1 / per-column result codes) on the unnamed and a named portal, differential against a connection where only the second Bind happened; two connections: all interleaved histories of length <= d2 over 2 x 6 letters using the same names; distinct = distinct histories",
+		Rule:      "single: all histories of length <= d over 23 letters (names \"\"/a, portals \"\"/x, two distinguishable statements, two parameter/format variants); statement re-definition with blank and non-blank texts (differential against a connection that only saw the second definition); portal re-binding (earlier portals are described before they are replaced): every ordered pair of ~50 Bind shapes (statement of 1 / 2 columns, 0-3 parameters, 0 / 1 / per-item parameter codes, 0 / 1 / per-column result codes) on the unnamed and a named portal, differential against a connection where only the second Bind happened; two connections: all interleaved histories of length <= d2 over 2 x 6 letters using the same names; distinct = distinct histories",
 		Assumptions: []string{
 			"not asserted: fate of a portal whose statement was closed (old statement or error, never a different one); whether portals survive Sync; the error-cycle discipline after an error (owned by C06: model forks on skipping and optional ReadyForQuery)",
 			"finer-than-message interleavings of two connections are explored by the C15 scheduler scenarios",
@@ -332,7 +332,7 @@ func init() {
 			a, b := c07Depth(tier)
 			return map[string]any{"single_connection_depth": a, "two_connection_depth": b, "letters": 23}
 		},
-		RequiredOutcomes: []string{"rebind-after-reparse", "closed-name-unresolvable", "plain", "two-conn", "portal-rebound"},
+		RequiredOutcomes: []string{"rebind-after-reparse", "closed-name-unresolvable", "plain", "two-conn", "portal-rebound", "statement-redefined"},
 	})
 }
 
@@ -616,7 +616,7 @@ func c07ServeRebind(portal string, binds []c07Shape) (string, string) {
 	one.Step(pgproto.Startup("user", "u"))
 	one.Step(pgproto.Cat(pgproto.Parse("s1", "two"), pgproto.Parse("s2", "one"), pgproto.Sync()))
 	for i, b := range binds[:len(binds)-1] {
-		one.Step(pgproto.Cat(b.bind(portal, fmt.Sprintf("old%d-", i)), pgproto.Sync()))
+		one.Step(pgproto.Cat(b.bind(portal, fmt.Sprintf("old%d-", i)), pgproto.Describe('P', portal), pgproto.Sync()))
 	}
 	trace = nil
 	out, _ := one.Step(pgproto.Cat(binds[len(binds)-1].bind(portal, "new-"), pgproto.Describe('P', portal), pgproto.Execute(portal, 0), pgproto.Sync()))
@@ -641,7 +641,75 @@ func c07RunRebind(portal string, earlier []c07Shape, last c07Shape) explore.Resu
 	return res
 }
 
+// c07RunRedefine: a statement name defined again with another (possibly blank) text: Bind / Describe / Execute
+// afterwards see the later definition, exactly as on a connection where only that definition was sent.
+func c07RunRedefine(name, q1, q2 string, portalBetween bool) explore.Result {
+	var res explore.Result
+	res.Outcome = "statement-redefined"
+	res.Key = fmt.Sprint("redefine", name, q1, q2, portalBetween)
+	serve := func(withEarlier bool) (string, string) {
+		var trace []string
+		parse := func(ctx context.Context, q string) (wire.PreparedStatements, error) {
+			trace = append(trace, fmt.Sprintf("parse %q", q))
+			cols := wire.Columns{{Name: "a", Oid: oid.T_int4}, {Name: "b", Oid: oid.T_int4}}
+			if strings.TrimSpace(q) != "two" {
+				cols = cols[:1]
+			}
+			return wire.Prepared(wire.NewStatement(func(ctx context.Context, w wire.DataWriter, params []wire.Parameter) error {
+				trace = append(trace, fmt.Sprintf("stmt %q", q))
+				row := []any{int32(258), int32(259)}
+				if err := w.Row(row[:len(cols)]); err != nil {
+					return err
+				}
+				return w.Complete("SELECT 1")
+			}, wire.WithColumns(cols))), nil
+		}
+		one, err := harness.StartOne(parse)
+		if err != nil {
+			return "", "engine: " + err.Error()
+		}
+		defer one.Stop()
+		one.Step(pgproto.Startup("user", "u"))
+		if withEarlier {
+			pre := pgproto.Parse(name, q1)
+			if portalBetween {
+				pre = pgproto.Cat(pre, pgproto.Bind("p", name, nil, nil, nil), pgproto.Describe('P', "p"), pgproto.Execute("p", 0))
+			}
+			one.Step(pgproto.Cat(pre, pgproto.Sync()))
+		}
+		trace = nil
+		out, _ := one.Step(pgproto.Cat(pgproto.Parse(name, q2), pgproto.Describe('S', name), pgproto.Bind("p", name, nil, nil, nil), pgproto.Describe('P', "p"), pgproto.Execute("p", 0), pgproto.Sync()))
+		t, _ := harness.CanonTranscript(out)
+		return strings.Join(t, " "), strings.Join(trace, "; ")
+	}
+	gotT, gotC := serve(true)
+	wantT, wantC := serve(false)
+	if strings.HasPrefix(gotC, "engine:") || strings.HasPrefix(wantC, "engine:") {
+		res.Engine = gotC + wantC
+		return res
+	}
+	if gotT != wantT || gotC != wantC {
+		res.Fail("redefinition-keeps-earlier-definition", fmt.Sprintf("statement %q defined as %q, then as %q: Describe / Bind / Execute gave\n  %s | %s\nbut on a connection where only the second definition was sent\n  %s | %s", name, q1, q2, gotT, gotC, wantT, wantC))
+	}
+	res.Trans = []string{"defined|parse again|defined"}
+	return res
+}
+
 func c07Enumerate(tier string, emit explore.Emit) {
+	for _, name := range []string{"", "s"} {
+		for _, q1 := range []string{"two", "one"} {
+			for _, q2 := range []string{"", " ", "\t\n", "one", "two", " two "} {
+				for _, between := range []bool{false, true} {
+					name, q1, q2, between := name, q1, q2, between
+					emit(explore.Case{Family: "statement-redefine", Size: 40,
+						Desc: func() any {
+							return map[string]any{"statement": name, "first_text": q1, "second_text": q2, "portal_bound_and_executed_between": between}
+						},
+						Run: func() explore.Result { return c07RunRedefine(name, q1, q2, between) }})
+				}
+			}
+		}
+	}
 	shapes := c07Shapes()
 	for _, portal := range []string{"", "x"} {
 		for _, a := range shapes {
